@@ -17,7 +17,7 @@ META = {
              "non-trivial = (by the model) the last-ending operation of some (sub-)circuit is not a relation leaf or the earliest-starting one is not a head"),
     "assumptions": ["reference model qv/model.py; span computed from the library's own reported operation times at the same step as well"],
     "floors": {
-        "quick": {"durations_compared": 40000, "growth_rereads": 3000, "forms_compared": 20000, "relations_to_former_blocks_checked": 300, "group_follower_checks": 2000, "registry_reassignments": 10000, "follower_checks": 5000, "empty_circuits": 1000, "label_non-leaf-last-end": 1000, "label_early-start": 3000, "label_nested-block-early-start": 500},
+        "quick": {"growth_first_add_rereads": 6000, "growth_of_empty_block_rereads": 500, "durations_compared": 40000, "growth_rereads": 3000, "forms_compared": 20000, "relations_to_former_blocks_checked": 300, "group_follower_checks": 2000, "registry_reassignments": 10000, "follower_checks": 5000, "empty_circuits": 1000, "label_non-leaf-last-end": 1000, "label_early-start": 3000, "label_nested-block-early-start": 500},
         "thorough": {"durations_compared": 500000, "follower_checks": 50000, "empty_circuits": 10000},
     },
 }
@@ -34,14 +34,25 @@ def gen_case(rng: random.Random, cls: str) -> Dict[str, Any]:
     if cls == "span-hostile":
         return gen.gen_span_hostile(rng)
     if cls == "empty":
-        mode = rng.randrange(3)
+        mode = rng.randrange(4)
         if mode == 0:
             circ = {"reps": 1, "steps": []}
         elif mode == 1:
             circ = {"reps": 1, "steps": [{"k": "Rx180", "q": [0]}, {"sub": {"reps": rng.choice([1, 2]), "steps": []}}, {"k": "Rx180", "q": [0]}]}
-        else:
+        elif mode == 2:
             circ = {"reps": 1, "steps": [{"sub": {"reps": 1, "steps": [{"sub": {"reps": 1, "steps": []}}]}}, {"k": "Reset", "q": [1]}]}
+        else:
+            # an empty block that an operation is explicitly related to (an empty block has no channels, nothing follows it implicitly)
+            circ = {"reps": 1, "steps": [{"k": "Rx180", "q": [0]}, {"sub": {"reps": 1, "steps": []}},
+                                         {"k": rng.choice(["Ry90", "Wait", "DispersiveMeasure"]), "q": [rng.choice([0, 1])], "rel": [rng.choice(["FOLLOWED_BY", "JOINED_START"]), 1]},
+                                         {"k": "Rx90", "q": [1]}]}
         return {"class": "empty", "circuit": circ, "settings": gen.make_settings(rng)}
+    if rng.random() < 0.05:
+        # a repetition count of 0 is accepted input: until modifiers are applied the block is listed and scheduled once, and its duration
+        # spans that content (seeded change C04-r13: "never executed, hence empty, hence duration 0")
+        prog = gen.gen_program(rng, cls, reps=[0, 0, 1, 2])
+        prog["has_zero_count"] = True
+        return prog
     return gen.gen_program(rng, cls)
 
 
@@ -129,6 +140,18 @@ def check_program(prog: Dict[str, Any], acc: Acc, flags=None):
                 continue
             op = bp.make_op({"k": "Wait", "q": [0], "dur": 7.25}, ctx, [built.top])
             h.add(op)
+            # read right after the FIRST addition (the block may have been empty until now and may be referenced by an explicit relation):
+            # seeded change C03-r13 skipped the memo clear for the first operation added to an empty sub-circuit
+            rep1 = snap.raw_value(lambda: float(top.duration))
+            shd1 = snap.shadow_value(lambda: float(top.duration))
+            one_raw, one_sh = snap.raw_times(ops), snap.shadow_times(ops)
+            acc.count("growth_first_add_rereads")
+            if not snap.walk_leaves(h)[1:]:
+                acc.count("growth_of_empty_block_rereads")
+            if abs(rep1 - shd1) > TOL or any(abs(a[0] - b[0]) > TOL or abs(a[1] - b[1]) > TOL for a, b in zip(one_raw, one_sh)):
+                acc.finding("stale-memo/after-growth", "duration / times reported after a sub-circuit grew differ from the memo-free evaluation", case,
+                            {"duration_reported": rep1, "duration_memo_free": shd1, "after": "first addition"})
+                break
             # ... and one on a qubit the block did not use yet: a NEW head operation of an already listed block
             h.add(bp.make_op({"k": "Wait", "q": [17], "dur": 3}, ctx, [built.top]))
             acc.count("growth_rereads")
